@@ -139,7 +139,12 @@ where
     O: Sink<BytesMut, Error = anyhow::Error> + Stream<Item = Result<BytesMut>>,
 {
     let (c_l, l_c) = local_client.split();
-    let (c_s, s_c) = client_server.split();
+    let (mut c_s, s_c) = client_server.split();
+    // open the tunnel right away (the request header travels with an empty first message):
+    // a target that speaks first (SSH, SMTP, ...) would otherwise never be dialled
+    if let Err(e) = c_s.send(BytesMut::new()).await {
+        return relay::Result::Err(End::Client, End::Server, e);
+    }
 
     let l_c_s = async {
         match l_c.forward(c_s).await {
